@@ -18,7 +18,7 @@ def load():
 
 
 def for_property(pid):
-    return [f for f in load().get('findings', []) if f['property'] == pid]
+    return [f for f in load().get('findings', []) if f['property'] == pid or pid in f.get('also', [])]
 
 
 def deviations(pid=None):
